@@ -188,28 +188,9 @@ def life():
     s=rep(s,'''		stopFlag:          false,
 ''','''		stopState:         0,
 ''')
-    # StartSearch: do not touch the state of a possibly running search
-    s=rep(s,'''	// set position and searchLimits into the current search state
-	s.currentPosition = &p
-	s.searchLimits = &sl
-''','''	// position and searchLimits are set into the current search state by
-	// run() once it is clear that no other search is running
-''')
     s=rep(s,'''	s.stopFlag = true
 	s.WaitWhileSearching()''','''	s.requestStop()
 	s.WaitWhileSearching()''')
-    s=rep(s,'''		s.log.Error("Search already running")
-''','''		s.log.Error("Search already running")
-		// the caller waits in StartSearch() for the init phase lock
-		s.initSemaphore.Release(1)
-''')
-    s=rep(s,'''	// start search timer
-	s.startTime = time.Now()''','''	// set position and searchLimits into the current search state
-	s.currentPosition = position
-	s.searchLimits = sl
-
-	// start search timer
-	s.startTime = time.Now()''')
     s=rep(s,'''	s.stopFlag = false
 ''','''	s.newSearchGeneration()
 ''')
@@ -337,6 +318,162 @@ func (s *Search) setExtraTime(d time.Duration) {
 	}()''','''			s.requestStopFor(mySearch)
 		}
 	}()''')
+    wr(SE,s)
+
+
+UCI='/repo/internal/uci/uci.go'
+def ucisend():
+    s=rd(UCI)
+    s=rep(s,'''	"strconv"
+	"strings"
+	"time"
+''','''	"strconv"
+	"strings"
+	"sync"
+	"time"
+''')
+    s=rep(s,'''	myPerft    *movegen.Perft
+	uciLog     *logging.Logger
+}''','''	myPerft    *movegen.Perft
+	uciLog     *logging.Logger
+	// the search go routine (info, bestmove) and the command loop (readyok,
+	// info strings) both write to OutIo
+	sendMutex sync.Mutex
+}''')
+    s=rep(s,'''func (u *UciHandler) send(s string) {
+	u.uciLog.Infof(">> %s", s)
+''','''func (u *UciHandler) send(s string) {
+	u.sendMutex.Lock()
+	defer u.sendMutex.Unlock()
+	u.uciLog.Infof(">> %s", s)
+''')
+    wr(UCI,s)
+
+
+OPT='/repo/internal/uci/ucioption.go'
+def d9():
+    s=rd(UCI)
+    s=rep(s,'''	fen := position.StartFen
+	i := 1
+	switch tokens[i] {
+	case "startpos":''','''	fen := position.StartFen
+	i := 1
+	if len(tokens) < 2 {
+		msg := out.Sprintf("Command 'position' malformed. %s", tokens)
+		u.SendInfoString(msg)
+		log.Warning(msg)
+		return
+	}
+	switch tokens[i] {
+	case "startpos":''')
+    s=rep(s,'''	u.myPosition, _ = position.NewPositionFen(fen)
+''','''	newPosition, err := position.NewPositionFen(fen)
+	if err != nil {
+		// keep the position we have
+		msg := out.Sprintf("Command 'position' malformed. Invalid fen '%s' (%s)", fen, err)
+		u.SendInfoString(msg)
+		log.Warning(msg)
+		return
+	}
+	u.myPosition = newPosition
+''')
+    # readSearchLimits: every sub command with an argument checks that the argument exists
+    s=rep(s,'''	searchLimits := search.NewSearchLimits()
+	i := 1
+	for i < len(tokens) {
+		var err error = nil
+		switch tokens[i] {''','''	searchLimits := search.NewSearchLimits()
+	i := 1
+	for i < len(tokens) {
+		var err error = nil
+		// all sub commands but these need an argument
+		if tokens[i] != "moves" && tokens[i] != "infinite" && tokens[i] != "ponder" && i+1 >= len(tokens) {
+			msg := out.Sprintf("UCI command go malformed. Value missing for: %s", tokens[i])
+			u.SendInfoString(msg)
+			log.Warning(msg)
+			return nil, true
+		}
+		switch tokens[i] {''')
+    wr(UCI,s)
+    s=rd(OPT)
+    s=rep(s,'''	v, _ := strconv.Atoi(o.CurrentValue)
+	Settings.Search.TTSize = v
+	u.mySearch.ResizeCache()''','''	v, _ := strconv.Atoi(o.CurrentValue)
+	// keep the size within the advertised range
+	if min, err := strconv.Atoi(o.MinValue); err == nil && v < min {
+		v = min
+	}
+	if max, err := strconv.Atoi(o.MaxValue); err == nil && v > max {
+		v = max
+	}
+	Settings.Search.TTSize = v
+	u.mySearch.ResizeCache()''')
+    wr(OPT,s)
+
+
+POS='/repo/internal/position/position.go'
+def longgame():
+    s=rd(POS)
+    s=rep(s,'''	// Save state of board for undo
+	// this helps the compiler to prove that it is in bounds for the several updates we do after
+	tmpHistoryCounter := p.historyCounter
+	// update existing history entry to not create and allocate a new one
+	p.history[tmpHistoryCounter].zobristKey = p.zobristKey
+	p.history[tmpHistoryCounter].move = m''','''	// Save state of board for undo
+	if p.historyCounter >= maxHistory {
+		p.makeHistoryRoom()
+	}
+	// this helps the compiler to prove that it is in bounds for the several updates we do after
+	tmpHistoryCounter := p.historyCounter
+	// update existing history entry to not create and allocate a new one
+	p.history[tmpHistoryCounter].zobristKey = p.zobristKey
+	p.history[tmpHistoryCounter].move = m''')
+    s=rep(s,'''func (p *Position) DoNullMove() {
+	// Save state of board for undo
+	// this helps the compiler to prove that it is in bounds for the several updates we do after
+	tmpHistoryCounter := p.historyCounter''','''func (p *Position) DoNullMove() {
+	// Save state of board for undo
+	if p.historyCounter >= maxHistory {
+		p.makeHistoryRoom()
+	}
+	// this helps the compiler to prove that it is in bounds for the several updates we do after
+	tmpHistoryCounter := p.historyCounter''')
+    s=rep(s,'''// IsAttacked checks if the given square is attacked by a piece
+// of the given color.''','''// makeHistoryRoom is called when a game gets longer than the history can
+// hold. It forgets the older half of the history. Repetition detection never
+// needs to look back further than the half move clock allows and moves are
+// only taken back within a search - both stay well within the newer half.
+func (p *Position) makeHistoryRoom() {
+	const keep = maxHistory / 2
+	copy(p.history[:keep], p.history[maxHistory-keep:])
+	p.historyCounter = keep
+}
+
+// IsAttacked checks if the given square is attacked by a piece
+// of the given color.''')
+    wr(POS,s)
+
+
+def d10():
+    s=rd(SE)
+    s=rep(s,'''	// set position and searchLimits into the current search state
+	s.currentPosition = &p
+	s.searchLimits = &sl
+''','''	// position and searchLimits are set into the current search state by
+	// run() once it is clear that no other search is running
+''')
+    s=rep(s,'''		s.log.Error("Search already running")
+''','''		s.log.Error("Search already running")
+		// the caller waits in StartSearch() for the init phase lock
+		s.initSemaphore.Release(1)
+''')
+    s=rep(s,'''	// start search timer
+	s.startTime = time.Now()''','''	// set position and searchLimits into the current search state
+	s.currentPosition = position
+	s.searchLimits = sl
+
+	// start search timer
+	s.startTime = time.Now()''')
     wr(SE,s)
 
 if __name__=='__main__':
